@@ -67,7 +67,7 @@ image_case = st.fixed_dictionaries({
     "negate": st.booleans(),
     "cube": st.sampled_from(["2d", "2d", "3d", "4d"]),
     "planes": st.integers(2, 3),
-    "route": st.sampled_from(["plane", "file"]),
+    "route": st.sampled_from(["plane", "file", "file", "cli"]),
     "seed": st.integers(0, 2 ** 31 - 1),
 })
 
@@ -190,7 +190,14 @@ def check_image(c):
             region.save(regfile)
             for ng in (negate, not negate):
                 outfile = os.path.join(d_tmp, "out%d.fits" % int(ng))
-                MIMAS.mask_file(regfile, infile, outfile, negate=ng)
+                if c["route"] == "cli":
+                    from AegeanTools.CLI import MIMAS as mimas_cli
+                    rc = mimas_cli.main(["--maskimage", regfile, infile, outfile] + (["--negate"] if ng else []))
+                    if rc not in (0, None) or not os.path.exists(outfile):
+                        res.bad("cli-maskimage-run", "MIMAS --maskimage returned %r, output exists=%s" % (rc, os.path.exists(outfile)), **tags)
+                        return res
+                else:
+                    MIMAS.mask_file(regfile, infile, outfile, negate=ng)
                 got = np.squeeze(fits.getdata(outfile))
                 if c["cube"] == "2d":
                     if got.shape != (nr, nc):
@@ -241,7 +248,7 @@ def check_image(c):
     both = bool(inside.any() and (~inside).any())
     pair = bool(np.any(inside[:, 1:] != inside[:, :-1]) or np.any(inside[1:, :] != inside[:-1, :]))
     res.nontrivial = both and pair
-    res.label("route-" + c["route"], "cube-" + c["cube"] if c["route"] == "file" else "plane", "proj-" + c["proj"])
+    res.label("route-" + c["route"], "cube-" + c["cube"] if c["route"] != "plane" else "plane", "proj-" + c["proj"])
     if not (0 <= c["crpix_frac"][0] <= 1 and 0 <= c["crpix_frac"][1] <= 1):
         res.label("crpix-off-image")
     return res
@@ -258,7 +265,7 @@ table_case = st.fixed_dictionaries({
     "nan_rate": st.sampled_from([0.0, 0.1, 0.5]),
     "negate": st.booleans(),
     "cols": st.sampled_from([("ra", "dec"), ("RAJ2000", "DEJ2000"), ("lon", "lat")]),
-    "route": st.sampled_from(["table", "table", "csv", "fits"]),
+    "route": st.sampled_from(["table", "table", "csv", "fits", "cli-csv"]),
     "seed": st.integers(0, 2 ** 31 - 1),
 })
 
@@ -316,13 +323,20 @@ def check_table(c):
                 out = MIMAS.mask_table(copy.deepcopy(region), tab.copy(), negate=negate, racol=racol, deccol=deccol)
             else:
                 d_tmp = tempfile.mkdtemp(prefix="c10t_")
-                ext = c["route"]
+                ext = c["route"].replace("cli-", "")
                 infile = os.path.join(d_tmp, "in." + ext)
                 outfile = os.path.join(d_tmp, "out." + ext)
                 tab.write(infile)
                 regfile = os.path.join(d_tmp, "r.mim")
                 region.save(regfile)
-                MIMAS.mask_catalog(regfile, infile, outfile, negate=negate, racol=racol, deccol=deccol)
+                if c["route"].startswith("cli-"):
+                    from AegeanTools.CLI import MIMAS as mimas_cli
+                    rc = mimas_cli.main(["--maskcat", regfile, infile, outfile, "--colnames", racol, deccol] + (["--negate"] if negate else []))
+                    if rc not in (0, None) or not os.path.exists(outfile):
+                        res.bad("cli-maskcat-run", "MIMAS --maskcat returned %r, output exists=%s" % (rc, os.path.exists(outfile)))
+                        return res
+                else:
+                    MIMAS.mask_catalog(regfile, infile, outfile, negate=negate, racol=racol, deccol=deccol)
                 out = load_table(outfile)
     finally:
         if d_tmp:
